@@ -268,7 +268,7 @@ class Demography:
             epochs[i] = epoch
 
         # sort back to original order
-        return np.array(epochs[np.argsort(t)])
+        return np.array(epochs[np.argsort(np.argsort(t))])
 
     def get_epoch(self, t: float = 0) -> 'Epoch':
         """
